@@ -99,7 +99,7 @@ fn server(mut raw: UnixStream, id: usize, acc_key: Vec<u8>, chal: Vec<u8>, sc: [
 }
 
 /// TSCredentials { credType 1, credentials OCTET STRING { TSPasswordCreds { domain, user, password } } }
-fn parse_ts_credentials(b: &[u8]) -> Option<(Vec<u8>, Vec<u8>, Vec<u8>)> {
+pub fn parse_ts_credentials(b: &[u8]) -> Option<(Vec<u8>, Vec<u8>, Vec<u8>)> {
     let (_, body, _) = tlv(b)?;
     let (_, _, rest) = tlv(body)?;
     let (_, c1, _) = tlv(rest)?;
